@@ -188,7 +188,7 @@ def validity_real(path, group="/"):
 # ---------------------------------------------------------------------------
 # symbolic bin tables (valid segmentations: per chromosome consecutive from 0, positive widths)
 # ---------------------------------------------------------------------------
-def sym_bins(layout, wmax=None, shape="any", b=None, prefix="w"):
+def sym_bins(layout, wmax=None, shape="any", b=None, prefix="w", names=None):
     """SFrame(chrom categorical, start, end) with symbolic widths.
     shape: 'any' (every width free in 1..wmax), 'fixed' (all but the last bin of each chromosome are `b` wide,
     last in 1..wmax)"""
@@ -202,12 +202,12 @@ def sym_bins(layout, wmax=None, shape="any", b=None, prefix="w"):
             else:
                 ws.append(sym_int(f"{prefix}{ci}_{k}", 1, wmax))
         widths.append(ws)
-    return bins_frame(layout, widths, sympd), widths
+    return bins_frame(layout, widths, sympd, names), widths
 
 
-def bins_frame(layout, widths, pdmod):
+def bins_frame(layout, widths, pdmod, names=None):
     import pandas as pd
-    names = [f"c{ci}" for ci in range(len(layout))]
+    names = list(names) if names else [f"c{ci}" for ci in range(len(layout))]
     chrom, starts, ends = [], [], []
     for ci, ws in enumerate(widths):
         pos = 0
